@@ -130,7 +130,7 @@ def same_value(a, b):
 
 
 def guarded(fn, block, edges):
-    return bool(edges) and block not in fn.reachable(0, removed=frozenset(edges))
+    return fn.guarded_by(block, edges)
 
 
 def is_start_origin(ts):
@@ -725,6 +725,42 @@ def zip_components(elem_terms):
             break
         return ts
     return base(z[2][0]), base(z[2][1])
+
+
+def zip_elem_base(ts):
+    """ts is (a projection .k.. of) the element of a loop over nested zips of plain iterations: the collection whose
+    element it is (iter / iter_mut / into_iter stripped), e.g.  next(zip(iter_mut(O), zip(iter(A), iter(B))))!.1.0 -> A"""
+    if len(ts) != 1:
+        return None
+    n = next(iter(ts))
+    path = []
+    while n[0] == 'field' and n[2] in ('0', '1') and len(n[1]) == 1:
+        path.append(int(n[2]))
+        n = next(iter(n[1]))
+    if n[0] != 'unwrap' or len(n[1]) != 1:
+        return None
+    m = next(iter(n[1]))
+    if not (m[0] == 'call' and m[1] == 'std::iter::Iterator::next' and m[2]):
+        return None
+
+    def strip(it):
+        for _ in range(6):
+            if len(it) == 1:
+                q = next(iter(it))
+                if q[0] == 'call' and q[2] and q[1].rsplit('::', 1)[-1] in ('iter', 'iter_mut', 'into_iter', 'copied', 'cloned', 'by_ref'):
+                    it = q[2][0]
+                    continue
+            break
+        return it
+    it = strip(m[2][0])
+    for k in reversed(path):
+        if len(it) != 1:
+            return None
+        z = next(iter(it))
+        if not (z[0] == 'call' and z[1] == 'std::iter::Iterator::zip' and len(z[2]) == 2):
+            return None
+        it = strip(z[2][k])
+    return it
 
 
 def cost_pairs(ctx, planner, ts, cf, sf, depth=0):
